@@ -29,7 +29,8 @@ RULE = ("for each of the 25 message classes the grammar table enumerates option 
         "incl. astral/combining/control characters, bytes, lists/dicts to depth 4). Every message goes through marshal->parse "
         "directly and through 8 serializer variants; heterogeneous batches of 1/2/3/17 messages; cache attack (A, B, mutate+"
         "uncache) and cache sequences (programs of serialize / mutate+uncache / continue-with-the-received-object steps over "
-        "3-8 serializer instances); messages whose serialized size brackets 2^16 and exceeds 2^20 octets (alone and inside "
+        "3-8 serializer instances); every other draw puts Unicode text that is not NFC-stable into all URI-typed fields, string "
+        "options and kwargs keys; messages whose serialized size brackets 2^16 and exceeds 2^20 octets (alone and inside "
         "mixed batches). Thorough adds: 4 draws per (subset, mode); 6 sub-seeds' worth of re-seeded random subsets / value "
         "rotations x all payload modes with a deep payload generator (depth 8 / 24, containers up to 21 elements, strings and "
         "binaries up to 8 KiB, every integer width boundary within +-2^53, binary64 edge values; NaN/+-inf only through "
@@ -45,6 +46,7 @@ ASSUMPTIONS = [
     "admissibility constraints taken from the library's own documented constructor contracts: resume-session needs resume-token, WELCOME.resumable needs resume_token, UNSUBSCRIBED/UNREGISTERED carry a subscription/registration detail only with request==0, opaque payload always comes with enc_algo",
     "an EMPTY opaque payload (payload=b'' + enc_algo) counts as an admissible payload-transparency triple: the constructors assert only `payload is None or type(payload) == bytes`, parse() accepts and reproduces [.., b''] + enc_algo, and a zero-length body is a legal value for enc_algo='mqtt' (MQTT PUBLISH may carry an empty body) and for any x_ algorithm; its loss is keyed as ONE mechanism per class (C03/<Class>/payload-empty/lost/<where>)",
     "a null in the Arguments position of a kwargs-only message (what 6 of the 7 payload classes emit and accept) is not asserted against: args None == [] is a documented equivalence of the round trip; only a message the library cannot read back is reported",
+    "URI-typed fields (realm, topic, procedure, error, reason), string options (authid, authrole, transaction_hash, ..., forward_for entries), kwargs keys and an args element carry, in every other draw, text that is NOT stable under Unicode normalisation (NFD sequences, Hangul jamo, canonical singletons U+212B/U+2126/U+F900, composition exclusions, reordered combining marks, astral, zero-width joiners, mixed script); every component obeys the loose URI grammar (no whitespace, '.', '#'); strings are compared code point by code point - the oracle never normalises (unicodedata is used only to classify the generated inputs for the counters)",
     "third-party decoders (stdlib json, msgpack, cbor2, bjdata) are trusted to decide whether produced bytes are well-formed for the is_binary check",
     "both txaio frameworks are used (shards alternate tx/aio); the serializers need one selected because of txaio.time_ns",
 ]
@@ -65,6 +67,10 @@ DECIDING = {
     "deep_cases": lambda tier: 0 if tier == "quick" else 30000,
     "float_nonfinite_roundtrips": lambda tier: 0 if tier == "quick" else 10000,
     "batch_sizes": lambda tier: 16 if tier == "quick" else 28,
+    "non_nfc_uri_roundtrips": lambda tier: 3000 if tier == "quick" else 150000,
+    "non_nfc_uri_fields": 11,
+    "unicode_option_roundtrips": lambda tier: 3000 if tier == "quick" else 150000,
+    "unicode_kwargs_key_roundtrips": lambda tier: 1000 if tier == "quick" else 50000,
     "is_binary_checked": 5000,
     "classes": 25,
     "serializer_variants": 8,
@@ -160,7 +166,7 @@ class Monitor:
                                     {"where": where, "mode": mode, "attrs": lost}, case)
                     continue
                 R.violation("C03/%s/%s/%s/%s" % (spec.name, a, kind, where),
-                            "attribute %s.%s: sent %.200r, came back %.200r" % (spec.name, a, e, g),
+                            "attribute %s.%s: sent %s, came back %s" % (spec.name, a, ascii(e)[:200], ascii(g)[:200]),
                             {"where": where, "mode": mode, "attr": a}, case)
         if sent_msg is not None:
             R.count("marshal_compared")
@@ -243,6 +249,18 @@ class Monitor:
             for kind in case.get("kinds", ()):
                 if kind in ("float-nonfinite", "float-tiny"):
                     R.count(kind.replace("-", "_") + "_roundtrips")
+            uni = case.get("uni")
+            if uni:
+                if uni["uri"]:
+                    R.count("non_nfc_uri_roundtrips")
+                    for a in uni["uri"]:
+                        R.seen("non_nfc_uri_fields", "%s.%s" % (spec.name, a))
+                if uni["opt"]:
+                    R.count("unicode_option_roundtrips")
+                    for a in uni["opt"]:
+                        R.seen("unicode_option_fields", "%s.%s" % (spec.name, a))
+                if uni["keys"]:
+                    R.count("unicode_kwargs_key_roundtrips")
             self.compare(spec, expected, out[0], sid, mode, case, msg, reported)
             if "<exception>" not in reported:
                 self.reserialize_received(sid, ser, spec, out[0], 0, 1, case)
@@ -525,8 +543,14 @@ class _Driver:
     def one(self, spec, k, label, mode, f, pg, gen="base", sub=None):
         mon, R, rng = self.mon, self.R, self.rng
         skip = D.skip_bases(pg)
+        uni = None
+        if k % 2 == 0:
+            # every other draw: URI-typed fields, string options, kwargs keys carry Unicode text that is not NFC-stable
+            uni = D.unicode_overlay(spec, f, random.Random("%s/c03/uni/%s/%s/%s/%d" % (self.seed, gen, sub, spec.name, k)))
         case = {"class": spec.name, "k": k, "label": label, "mode": mode, "fields": G.jenc(f), "nul_prefix": pg.nul_prefix,
                 "skip": sorted(skip), "kinds": sorted(pg.kinds), "gen": gen}
+        if uni is not None:
+            case["uni"] = uni
         if sub is not None:
             case["subseed"] = sub
         msg, expected, ok = mon.run_case(spec, label, mode, f, skip, case)
